@@ -15,9 +15,14 @@ package bigint
 
 // FromBytes is only given a safety contract here (its value semantics, word arithmetic on
 // math/big internals, is outside the verifier's reach): it panics exactly on a nil slice.
+// Its value: the little-endian two's-complement number the bytes spell (le2c, uninterpreted:
+// the VM contracts of C13 only need that equal byte strings give equal numbers).
+//@ import big math/big
+//@ spec le2c(b seq) int
 //@ prop C17,C18
 //@ func FromBytes
 //@ assumed
 //@ pure
 //@ requires[nonnil] data != nil
-//@ ensures result != nil
+//@ ensures result != nil && result.v == le2c(data)
+//@ ensures[range] len(data) <= 32 ==> -big.two255() <= le2c(data) && le2c(data) < big.two255()   // a two's-complement number of n bytes lies in [-2^(8n-1), 2^(8n-1))
